@@ -185,12 +185,76 @@ fn realise(plan: &Plan, v: &Variant07) -> crate::plan::Realised {
         1 => How::Incremental,
         _ => How::Reparent,
     };
-    if v.fixed_refs && plan.nodes.len() <= ref_pool().len() {
+    let mut r = if v.fixed_refs && plan.nodes.len() <= ref_pool().len() {
         let pool = ref_pool();
         let refs: Vec<Ref> = (0..plan.nodes.len()).map(|i| pool[(i + v.ref_rot) % pool.len()]).collect();
         p.realise(how, Some(&refs))
     } else {
         p.realise(how, None)
+    };
+    churn(&mut r, v.how / 3);
+    r
+}
+
+/// A history that leaves the logical content as it was (`how / 3`): 1 = property maps that had
+/// entries removed and re-added, and capacity reserved; 2 = instances inserted and destroyed
+/// around the real ones, a subtree cloned and the clone destroyed, the last child of a parent
+/// moved away and back.
+fn churn(r: &mut crate::plan::Realised, kind: u8) {
+    use rbx_dom_weak::InstanceBuilder;
+    let refs = r.refs.clone();
+    match kind % 3 {
+        1 => {
+            r.dom.reserve(1000);
+            for (n, rf) in refs.iter().enumerate() {
+                if let Some(i) = r.dom.get_by_ref_mut(*rf) {
+                    for k in 0..20 {
+                        i.properties.insert(format!("Scratch{}", k).as_str().into(), Variant::Int32(k));
+                    }
+                    for k in 0..20 {
+                        i.properties.remove(&format!("Scratch{}", k).as_str().into());
+                    }
+                    let mut keys: Vec<_> = i.properties.iter().map(|(k, _)| *k).collect();
+                    keys.sort();
+                    if n % 2 == 0 {
+                        keys.reverse();
+                    }
+                    for k in keys {
+                        if k.as_str() == "UniqueId" {
+                            continue; // the DOM's bookkeeping follows insert / destroy, not edits
+                        }
+                        if let Some(v) = i.properties.remove(&k) {
+                            i.properties.insert(k, v);
+                        }
+                    }
+                    i.properties.shrink_to_fit();
+                }
+            }
+        }
+        2 => {
+            for rf in refs.iter() {
+                let Some(inst) = r.dom.get_by_ref(*rf) else { continue };
+                let parent = inst.parent();
+                let last_child = inst.children().last().copied();
+                // a scratch child, destroyed again
+                let s = r.dom.insert(*rf, InstanceBuilder::new("Folder").with_name("scratch").with_child(InstanceBuilder::new("Part")));
+                r.dom.destroy(s);
+                // the last child away and back: it is the last child again
+                if let Some(c) = last_child {
+                    let root = r.dom.root_ref();
+                    if root != *rf {
+                        r.dom.transfer_within(c, root);
+                        r.dom.transfer_within(c, *rf);
+                    }
+                }
+                // a clone of the instance's subtree, destroyed again
+                if parent.is_some() {
+                    let c = r.dom.clone_within(*rf);
+                    r.dom.destroy(c);
+                }
+            }
+        }
+        _ => {}
     }
 }
 
@@ -231,7 +295,7 @@ fn variants(c: &Case07, tier: Tier) -> Vec<Variant07> {
             let mut p = 0;
             let mut j = 0usize;
             while p < total {
-                v.push(Variant07 { how: (j % 3) as u8, ref_rot: (j / 2) % 8, fixed_refs: j % 2 == 0, perm: p });
+                v.push(Variant07 { how: (j % 9) as u8, ref_rot: (j / 2) % 8, fixed_refs: j % 2 == 0, perm: p });
                 p += step;
                 j += 1;
             }
@@ -244,7 +308,7 @@ fn variants(c: &Case07, tier: Tier) -> Vec<Variant07> {
             let mut p = 0;
             let mut j = 0usize;
             while p < total {
-                v.push(Variant07 { how: (j % 3) as u8, ref_rot: (j / 2) % 8, fixed_refs: j % 2 == 0, perm: p });
+                v.push(Variant07 { how: (j % 9) as u8, ref_rot: (j / 2) % 8, fixed_refs: j % 2 == 0, perm: p });
                 p += step;
                 j += 1;
             }
@@ -252,7 +316,7 @@ fn variants(c: &Case07, tier: Tier) -> Vec<Variant07> {
         Case07::Spell { .. } => {
             // every permutation of up to 6 properties (720), all three constructions in turn
             for p in 0..720 {
-                v.push(Variant07 { how: (p % 3) as u8, ref_rot: p % 8, fixed_refs: p % 2 == 0, perm: p });
+                v.push(Variant07 { how: (p % 9) as u8, ref_rot: p % 8, fixed_refs: p % 2 == 0, perm: p });
             }
         }
         Case07::Desc(_) => {
@@ -262,6 +326,11 @@ fn variants(c: &Case07, tier: Tier) -> Vec<Variant07> {
                         v.push(Variant07 { how, ref_rot: rot, fixed_refs: fixed, perm });
                     }
                 }
+            }
+            // the same content reached through a history (see `churn`)
+            for how in 3..9u8 {
+                v.push(Variant07 { how, ref_rot: 0, fixed_refs: true, perm: (how % 2) as usize });
+                v.push(Variant07 { how, ref_rot: 0, fixed_refs: false, perm: 0 });
             }
         }
     }
